@@ -34,6 +34,31 @@ class Pair:
     b: Leaf
 
 
+class Lang:  # grammar classes that are ATTRIBUTES OF ANOTHER CLASS of the script (qualified name `Lang.Lit`)
+    from abc import ABC as _ABC
+
+    class Expr(_ABC):
+        pass
+
+    @dataclass
+    class Lit(Expr):
+        v: int
+
+    @dataclass
+    class Flag(Expr):
+        on: bool
+
+
+def nested_fitness(p):
+    if not isinstance(p, Lang.Expr):
+        return -5000.0
+    if type(p) is Lang.Lit:
+        return float(p.v % 7)
+    if type(p) is Lang.Flag:
+        return 10.0 if p.on else 20.0
+    return -1000.0
+
+
 TARGET = 5
 
 
@@ -96,6 +121,24 @@ def local_batch(seed):
     return par, seq
 
 
+def nested_batch(seed):
+    """Classes nested in another class of the script (Lang.Lit), asked isinstance / type() by the fitness function."""
+    g = extract_grammar([Lang.Lit, Lang.Flag], Lang.Expr)
+    src = NativeRandomSource(seed)
+    rep = TreeBasedRepresentation(g, MaxDepthDecider(src, g, 4))
+    inds = [Individual(rep.create_genotype(src), rep) for _ in range(3 + seed % 3)]
+    twin = copy.deepcopy(inds)
+    prob = SingleObjectiveProblem(nested_fitness, minimize=False)
+    SequentialEvaluator().evaluate(prob, twin)
+    seq = [i.get_fitness(prob).fitness_components[0] for i in twin]
+    try:
+        ParallelEvaluator().evaluate(prob, inds)
+        par = [i.get_fitness(prob).fitness_components[0] for i in inds]
+    except BaseException as e:  # noqa
+        par = f"raised {type(e).__name__}: {str(e)[:160]}"
+    return par, seq
+
+
 def main():
     global TARGET
     seed = int(sys.argv[1]) if len(sys.argv) > 1 else 0
@@ -106,7 +149,7 @@ def main():
     first = batch(rep, src, n)
     TARGET = 100  # the next experiment of the same script
     second = batch(rep, src, n)  # same batch size: a pool kept from the first batch would serve it
-    print("GEVJSON " + json.dumps({"first": first, "second": second, "factory": local_batch(seed)}))
+    print("GEVJSON " + json.dumps({"first": first, "second": second, "factory": local_batch(seed), "nested": nested_batch(seed)}))
 
 
 if __name__ == "__main__":
